@@ -168,8 +168,16 @@ func VerifC04ForeignChain() {
 	f := 1 + vstub.NdChoice("foreign-len", maxF)
 	var lb *ipfslog.IPFSLog
 	var foreignHead ipfslog.Entry
+	// the other database's entries were written by the same remote writer, or by the
+	// LOCAL replica's own identity (one instance uses one identity for every database
+	// it opens): they are another database's entries all the same
+	foreignAuthor := w
+	if vstub.NdChoice("foreign-author-is-local", 2) == 1 {
+		foreignAuthor = env.Identity
+		vstub.Cover("foreign-entries-by-the-local-identity")
+	}
 	for k := 0; k < f; k++ {
-		lb, foreignHead = appendAs(env, lb, "/orbitdb/other/db", w, []byte{'f', byte('0' + k)})
+		lb, foreignHead = appendAs(env, lb, "/orbitdb/other/db", foreignAuthor, []byte{'f', byte('0' + k)})
 		if foreignHead == nil {
 			return
 		}
